@@ -17,9 +17,14 @@ package seq
 //@ func (Appender).AppendQLetters
 //@   pure
 
-// At is an observer (pure).
+// At is an observer (pure). cellLetter/cellQual are ghost views of the letter a row holds at a position
+// (keyed by row object and position); nothing in this file says how Set or the appenders change them.
+//@ spec cellKey(row int, pos int) int
+//@ ghostfield cellLetter(k int) alphabet.Letter
+//@ ghostfield cellQual(k int) alphabet.Qphred
 //@ func (Sequence).At
 //@   pure
+//@   ensures result.L == cellLetter(cellKey(ref(self), arg0)) && result.Q == cellQual(cellKey(ref(self), arg0))
 
 // Sequences handed to the writers carry an alphabet (assumption).
 //@ func (Sequence).Alphabet
